@@ -6,11 +6,12 @@
 (* is unfolded to op sequences of length HistLen (HistLen + 1 if Deep).    *)
 EXTENDS Outline, TLC, Json
 CONSTANTS FullN,      \* outlines with <= FullN example rows in total: every template
-          RotN,       \* ... with FullN < rows <= RotN: the template rotates with the case
+          RotN,       \* ... with FullN < rows <= RotN: the template rotates with the case (3 rows: value codes Codes3)
           Rot4,       \* TRUE: the 2x2 shape (4 rows) with the reduced value pool {x, other column's name}
           HistN,      \* history bases have <= HistN rows
           HistLen,    \* length of the op sequences
           Deep,       \* TRUE: op sequences of length HistLen + 1 from the bases with <= 1 row
+          AngleCodes, \* value codes used with the angle-bracket template T6
           NB
 
 \* ---------------------------------------------------------------- templates (placeholders at every position class)
@@ -53,7 +54,17 @@ T4 == [name  |-> <<"N ", PC, PA, " ", PU, " ", PRI, "/", PEN>>,
 T5 == [name  |-> <<"O ", PA>>,
        tags  |-> << <<"p", "/", "q">>, <<"w", PA>> >>,
        steps |-> << Step(<<"s ", PB>>, None, None, None) >>]
-Templates == <<T1, T2, T3, T4, T5>>
+\* stray angle brackets in literal text: a ">" before the first placeholder, a "<" after the last one, in the
+\* name, a tag, step names, a doc-string, a table heading and table cells; a step with a lone ">" only
+GT == ">"
+LT == "<"
+T6 == [name  |-> <<"a -", GT, " ", PA, " and x ", GT, " 0 and ", PB, " ", LT, " 5">>,
+       tags  |-> << <<"limit-", GT, PA>>, <<"t", PB>> >>,
+       steps |-> << Step(<<"presses -", GT, " ", PB>>, <<GT, " ", PA, " said", NL, "if 1 ", LT, " 2 then ", PB>>, None, None),
+                    Step(<<"Balance ", GT, " 0 for ", PA>>, None, << <<"k ", GT, " ", PA>>, <<"v">> >>,
+                         << << <<"-", GT, PB>>, <<PA, " ", LT, " 5">> >> >>),
+                    Step(<<"plain 3 ", GT, " 2">>, None, None, None) >>]
+Templates == <<T1, T2, T3, T4, T5, T6>>
 FullTpls == 1..5
 RotTpls  == 4                        \* rotation over T1..T4
 
@@ -63,10 +74,17 @@ RotTpls  == 4                        \* rotation over T1..T4
 \* when it reads the emitted cases (the judge Outline_Trace sees the real character).
 UC == "~e"
 Other(c) == IF c = "a" THEN "b" ELSE "a"
-Vals(c) == << <<>>, <<"x">>, <<UC>>, <<Other(c)>> >>     \* empty, x, unicode, the other column's name as plain text
-AllCodes == 0..15                    \* code = 4 * (index of a's value) + (index of b's value)
-Codes4   == {5, 7, 13, 15}           \* values from {x, other column's name}
-CellsFor(ord, code) == LET va == Vals("a")[(code \div 4) + 1]  vb == Vals("b")[(code % 4) + 1]
+\* empty, x, unicode, the other column's name as plain text; and two values with angle brackets whose bracketed
+\* part is NOT a column name: List<str> and <none>  (a cell such as a<b>c, whose bracketed part is a column name, stays
+\* outside: the code's sequential replace substitutes it again -- see the ASSUMEs below)
+Vals(c) == << <<>>, <<"x">>, <<UC>>, <<Other(c)>>, <<"List", "<", "str", ">">>, <<"<", "none", ">">> >>
+NV == 6                              \* code = NV * (index of a's value) + (index of b's value), indices from 0
+AllCodes == {NV * i + j : i \in 0..3, j \in 0..3}
+Codes3   == {NV * i + j : i \in 0..3, j \in 1..3}          \* 3-row outlines: b is never empty (budget)
+Codes4   == {NV * i + j : i \in {1, 3}, j \in {1, 3}}        \* values from {x, other column's name}
+AngleCodesQ == {NV * 4 + 1, NV * 1 + 5, NV * 5 + 4, NV * 1 + 1}   \* (List<str>, x) (x, <none>) (<none>, List<str>) (x, x)
+AngleCodesT == {NV * i + j : i \in {1, 4, 5}, j \in {1, 4, 5}}
+CellsFor(ord, code) == LET va == Vals("a")[(code \div NV) + 1]  vb == Vals("b")[(code % NV) + 1]
                        IN IF ord = 1 THEN <<va, vb>> ELSE <<vb, va>>
 ColsFor(ord) == IF ord = 1 THEN <<"a", "b">> ELSE <<"b", "a">>
 \* names of examples blocks: empty, plain, plain with blanks / unicode / a column name, and two with <column>
@@ -102,8 +120,11 @@ Shapes == {<<>>} \cup {<<n>> : n \in 0..2} \cup {<<n, m>> : n \in 0..2, m \in 0.
 Rotate(c) == [c EXCEPT !.t = 1 + (Hash0(c) % RotTpls)]
 AllCases ==
    UNION {CasesOf(sh, FullTpls, AllCodes) : sh \in {s \in Shapes : SumSeq(s) <= FullN}}
-   \cup {Rotate(c) : c \in UNION {CasesOf(sh, {0}, AllCodes) : sh \in {s \in Shapes : SumSeq(s) > FullN /\ SumSeq(s) <= RotN}}}
+   \cup {Rotate(c) : c \in UNION {CasesOf(sh, {0}, IF SumSeq(sh) >= 3 THEN Codes3 ELSE AllCodes) :
+                                   sh \in {s \in Shapes : SumSeq(s) > FullN /\ SumSeq(s) <= RotN}}}
    \cup (IF Rot4 THEN {Rotate(c) : c \in CasesOf(<<2, 2>>, {0}, Codes4)} ELSE {})
+   \* the template with stray angle brackets x cells with angle brackets, <= 2 rows
+   \cup UNION {CasesOf(sh, {6}, AngleCodes) : sh \in {s \in Shapes : SumSeq(s) <= 2}}
 Bucket(c) == Hash(c) % NB
 
 MkBlock(c, bi) ==
@@ -120,7 +141,7 @@ SchemaNo(c) == ((Hash(c) \div 2) % Len(Schemas)) + 1
 SchemaOf(c) == Schemas[SchemaNo(c)]
 
 \* history bases: templates 1 and 4, one value code, few rows
-HistCode == 6                          \* a = x, b = UC
+HistCode == NV * 1 + 2                 \* a = x, b = UC
 HistLenOf(c) == IF Deep /\ NRows(c) <= 1 THEN HistLen + 1 ELSE HistLen
 IsHistBase(c) == /\ c.t \in {1, 4} /\ NRows(c) <= HistN
                  /\ \A b \in DOMAIN c.rows : \A r \in DOMAIN c.rows[b] : c.rows[b][r] = HistCode
@@ -213,9 +234,12 @@ CodeEqDef == OnCase(LET o == O IN TagSafeTpl(o) =>
                 LET C == ExpandCode(o, S)  D == ExpandDef(o, S)  P == Pairs(o)
                     \* a tag that uses <examples.name> is made a valid tag by the code (blank -> _): compared for
                     \* tag-safe examples names only
+                    \* ... and for tag-safe cells and tag-safe literal text of parametrized tags (Tag.make_name)
                     TagsComparable(k) == LET blk == o.blocks[P[k][1]]
-                                         IN \/ \A i \in DOMAIN o.tags : PEN \notin Range(o.tags[i])
-                                            \/ TagSafe(SubstSim(blk.name, blk.cols, blk.rows[P[k][2]].cells))
+                                         IN /\ \/ \A i \in DOMAIN o.tags : PEN \notin Range(o.tags[i])
+                                               \/ TagSafe(SubstSim(blk.name, blk.cols, blk.rows[P[k][2]].cells))
+                                            /\ \A c \in DOMAIN blk.cols : TagSafe(blk.rows[P[k][2]].cells[c])
+                                            /\ \A i \in DOMAIN o.tags : HasAngles(o.tags[i]) => TagSafe(o.tags[i])
                 IN /\ Len(C) = Len(D)
                    /\ \A k \in DOMAIN D : /\ C[k].name = D[k].name /\ C[k].line = D[k].line /\ C[k].steps = D[k].steps
                                           /\ TagsComparable(k) => TagsAgree(C[k].tags, D[k].tags))
